@@ -176,7 +176,7 @@ PROPS = {
     },
     "C10": {
         "title": "Copying between forests preserves the function",
-        "rules": [rules_ftype.rule_mix_copy, callers_for("C10"), on_program(rules_level.rule_next_level), on_program(rules_dispatch.rule_copy_factory), on_program(rules_dispatch.rule_case_scalar), on_program(rules_dispatch.rule_copy_width), on_program(rules_dispatch.rule_identity_expansion)],
+        "rules": [rules_ftype.rule_mix_copy, callers_for("C10"), on_program(rules_level.rule_next_level), on_program(rules_dispatch.rule_copy_factory), on_program(rules_dispatch.rule_case_scalar), on_program(rules_dispatch.rule_copy_width), on_program(rules_dispatch.rule_identity_expansion), on_program(rules_dispatch.rule_special_terminal)],
         "explanation": STRUCTURAL + ". C10: cross-forest clause — copy_MT, copy_EV_fast, copy_EV<…> read only the source forest and build only in the target forest (copy_inforest: one forest by construction); "
                        "every value placed in the copy comes from the conversion of a source value, never from the target's transparent edge (who-may-call table for getTransparentEdge / getTransparentNode); level discipline of the copy recursion; the factory constructs each copy implementation only for the forest pairs it was written for (same object / MT source / same edge operation and range / matching edge type); under each case of a terminal / range / edge-type switch the value passes through a scalar of that case's family, read at the source's own width (defect D16).",
         "assumptions": ["scalar conversions and round-trip identity are not decided", "terminal handles are treated as forest independent"],
